@@ -288,7 +288,9 @@ def _cq():
 
 
 def coq_hex(b):
-    return '"%s"' % bytes(b).hex()
+    """bytes -> `packed` literal of Session/Hex.v: 7 bytes per primitive integer under a sentinel bit."""
+    b = bytes(b)
+    return '[' + ';'.join(str(int.from_bytes(b[i:i + 7], 'big') + (1 << (8 * len(b[i:i + 7])))) for i in range(0, len(b), 7)) + ']%uint63'
 
 
 def coq_cert(cert):
@@ -365,7 +367,7 @@ def coq_case(spec, obs, proxy_calls):
         cq.boolean(obs['end'] == 'closed' and obs['stray_sent'] == 0 and obs['tail_calls'] == 0), cq.lst(steps, str))
 
 
-CASE_HEADER = ('From Coq Require Import String List ZArith.\nFrom PK Require Import Session.SessionCases.\n'
+CASE_HEADER = ('From Coq Require Import String List ZArith Uint63.\nFrom PK Require Import Session.SessionCases.\n'
                'Import ListNotations.\nOpen Scope Z_scope.\nOpen Scope string_scope.\n')
 
 
@@ -463,7 +465,7 @@ def check_response_envelope(data):
         raise TTLVError('BatchCount missing or followed by other fields')
     count = rest[0][2]
     batch = body[1:]
-    if len(batch) != count or count < 1:
+    if len(batch) != count:
         raise TTLVError('BatchCount %d but %d batch items' % (count, len(batch)))
     out = []
     for t, y, fields in batch:
